@@ -246,3 +246,22 @@ def options_forwarded(F, R):
                             src.append(d)
                     direct = bool(src) and all(d.get("k") == "Field" and strip(d["a"]).get("k") == "Path" for d in src)
                     R.ob("OPT-FORWARD", "%s:%s" % (f["path"], l["name"]), ok and direct, F.loc(f, n), "SolveOptions.%s = %s, bound from %s (must be the caller's option field unmodified; validation is microlp's documented job)" % (l["name"], sexp(rhs), [sexp(d) for d in src]))
+        # nothing else of the solver's options may be touched: every other write into the SolveOptions value (a nested
+        # field, a compound assignment, a `&mut` alias of a part of it) changes an option the caller did not set
+        opts = {i for n in walk(f["body"]) if n.get("k") == "Let" and n.get("init") is not None and base_ty(F.ty(strip(n["init"])) or "") == "microlp::SolveOptions" for i, _ in pat_binds(n["pat"])}
+
+        def rooted(e):
+            e = strip(e)
+            while e.get("k") in ("Field", "Index"):
+                e = strip(e["a"])
+            return e.get("k") == "Path" and e.get("res") == "local" and e.get("id") in opts
+        other = []
+        for n in walk(f["body"]):
+            if n.get("k") in ("Assign", "AssignOp") and rooted(n["lhs"]):
+                l = strip(n["lhs"])
+                direct_field = l.get("k") == "Field" and strip(l["a"]).get("k") == "Path" and n.get("k") == "Assign"
+                if not direct_field:
+                    other.append(sexp(n)[:100])
+            if n.get("k") == "Ref" and n.get("mut") and strip(n["a"]).get("k") in ("Field", "Index") and rooted(n["a"]):
+                other.append("&mut " + sexp(strip(n["a"]))[:80])
+        R.ob("OPT-FORWARD", "%s:nothing-else" % f["path"], bool(opts) and not other, F.loc(f), "writes into the solver options other than the direct forwards: %s" % (other or "none"))
